@@ -547,7 +547,10 @@ def _dict_array_comp(data):
 
         # Compose complex numbers.
         if '__complex' in key:
-            value = np.asarray(value)[0, ...] + 1j*np.asarray(value)[1, ...]
+            value = np.asarray(value)
+            cvalue = np.zeros(value.shape[1:], dtype=(1j*value[:0]).dtype)
+            cvalue.real, cvalue.imag = value[0, ...], value[1, ...]
+            value = cvalue[()]
             key = key.replace('__complex', '')
 
         # Store this key-value-pair.
